@@ -118,13 +118,36 @@ func newReqEnv(t *testing.T) *reqEnv {
 // check issues one List and one Watch through the typed client and compares
 // the requests the server saw with the table; returns a violation message.
 func (e *reqEnv) check(spec reqSpec, ns, rv string) (string, []seenReq) {
+	// A round trip that runs into the harness's own deadline says nothing about where the request
+	// went (a time budget hit is inconclusive, never a violation): the check is repeated with a
+	// longer deadline, and only a client that still does not complete within two minutes, at the
+	// third attempt, is reported.
+	var msg string
+	var got []seenReq
+	for _, budget := range []time.Duration{20 * time.Second, 60 * time.Second, 120 * time.Second} {
+		var expired bool
+		msg, got, expired = e.check1(spec, ns, rv, budget)
+		if !expired {
+			return msg, got
+		}
+		statSlow("harness-http")
+	}
+	return msg, got
+}
+
+func (e *reqEnv) check1(spec reqSpec, ns, rv string, budget time.Duration) (msg string, got []seenReq, expired bool) {
+	ctx, cancel := context.WithTimeout(context.Background(), budget)
+	defer cancel()
+	msg, got = e.checkCtx(ctx, spec, ns, rv)
+	return msg, got, msg != "" && ctx.Err() != nil
+}
+
+func (e *reqEnv) checkCtx(ctx context.Context, spec reqSpec, ns, rv string) (string, []seenReq) {
 	e.mu.Lock()
 	e.current = spec
 	e.seen = nil
 	e.mu.Unlock()
 	c := spec.newClient(e.cs, ns)
-	ctx, cancel := context.WithTimeout(context.Background(), 20*time.Second)
-	defer cancel()
 	obj, err := c.List(ctx, metav1.ListOptions{})
 	if err != nil {
 		return fmt.Sprintf("%s client, namespace %q: List failed against a server that serves %s: %v", spec.pkg, ns, spec.kind, err), nil
@@ -196,6 +219,27 @@ func (e *reqEnv) check(spec reqSpec, ns, rv string) (string, []seenReq) {
 // canonical watch request: a typed client has exactly one way of watching its
 // resource in its namespace.
 func (e *reqEnv) checkWatchRefused(spec reqSpec, ns string, code int) (string, []seenReq) {
+	var msg string
+	var got []seenReq
+	for _, budget := range []time.Duration{20 * time.Second, 60 * time.Second, 120 * time.Second} {
+		var expired bool
+		msg, got, expired = e.checkWatchRefused1(spec, ns, code, budget)
+		if !expired {
+			return msg, got
+		}
+		statSlow("harness-http")
+	}
+	return msg, got
+}
+
+func (e *reqEnv) checkWatchRefused1(spec reqSpec, ns string, code int, budget time.Duration) (msg string, got []seenReq, expired bool) {
+	ctx, cancel := context.WithTimeout(context.Background(), budget)
+	defer cancel()
+	msg, got = e.checkWatchRefusedCtx(ctx, spec, ns, code)
+	return msg, got, ctx.Err() != nil
+}
+
+func (e *reqEnv) checkWatchRefusedCtx(ctx context.Context, spec reqSpec, ns string, code int) (string, []seenReq) {
 	e.mu.Lock()
 	e.current = spec
 	e.seen = nil
@@ -207,8 +251,6 @@ func (e *reqEnv) checkWatchRefused(spec reqSpec, ns string, code int) (string, [
 		e.mu.Unlock()
 	}()
 	c := spec.newClient(e.cs, ns)
-	ctx, cancel := context.WithTimeout(context.Background(), 20*time.Second)
-	defer cancel()
 	wi, err := c.Watch(ctx, metav1.ListOptions{ResourceVersion: "5", Watch: true})
 	if err == nil {
 		wi.Stop()
